@@ -37,6 +37,8 @@ def case_class(c):
         return '%s|delta=%s|off=%s' % (c['facet'], c['delta'], c['off'])
     if g == 'zone':
         return '%s|delta=%s|%s' % (c['facet'], c['delta'], c['how'])
+    if g == 'attrreq':
+        return '%s|%s' % (c['decl'], c['how'])
     if g == 'subname':
         return c['how']
     if g == 'inh':
